@@ -39,23 +39,24 @@ parameter `V : String → Prop` says which routines may be called FOR THEIR VALU
   calls `f(args)` —, `[f args]`; the arguments of a call are value positions of the same kind (calls
   as arguments of calls, to any depth), the parameter names distinct, the routine in `V`;
   call-free value positions (`Sim.RvOK`) are the same without the calls;
+* EVERY value position of every statement below is a value position WITH CALLS, except the
+  arguments of `printf`, which are call-free;
 * `setReg r v` (`Sim.SettableReg r`: `r ≠ unitMode`, `r ≠ discForward`), `assign n v`, `print v`,
-  `println v`, `get v` with value positions WITH CALLS; `printf` (call-free arguments, at least as many
+  `println v`, `get v`; `printf` (call-free arguments, at least as many
   positional fields as arguments, no field named `result`), `defMacro`, `wait`, `units`, `timeAt`;
 * `actAll`, `setDefault`, `stage`, `action k ops` with operands `light`/`group`/`location`
-  (name as string or variable), `zone`, `matrixInline` (call-free ranges), `matrixBlock` with ANY body
+  (name as string or variable), `zone`, `matrixInline`, `matrixBlock` with ANY body
   of the fragment;
-* `ite c t e` with or without `else`, nested to any depth, the condition a value position WITH CALLS;
+* `ite c t e` with or without `else`, nested to any depth;
 * EVERY form of `repeat`, nested to any depth, with `brk` anywhere in the bodies (inside `ite`,
-  inside a matrix body, …): `repeat_ (.count n)` and `repeat_ (.while_ c)` with `n`, `c` value positions
-  WITH CALLS, `repeat_ .forever`; the index-variable forms
+  inside a matrix body, …): `repeat_ (.count n)`, `repeat_ (.while_ c)`, `repeat_ .forever`; the
+  index-variable forms
   `repeat_ (.range v a b)` (`repeat with v from a to b`), `repeat_ (.interp n v a b)`
   (`repeat n with v from a to b`), `repeat_ (.cycle n v start)` (`repeat n with v cycle [start]`)
-  with call-free operands
   — the body may read and ASSIGN the index variable, and the variable may be read after the loop —;
   and the loops over names `repeat_ (.all lv w)`, `(.groups lv w)`, `(.locations lv w)`,
   `(.iter items lv w)` (`repeat all|group|location|in a and group g and location l … as lv [with
-  v from a to b | with v cycle [s]]`, call-free names and operands), a `break` or `return` inside
+  v from a to b | with v cycle [s]]`), a `break` or `return` inside
   which drops the names still waiting on the evaluation stack;
 * `call f ps as` as a statement and `ret v` from any loop depth inside a routine, arguments and
   returned value being value positions WITH CALLS — any depth of
@@ -73,9 +74,8 @@ scratch on the machine — and on the REAL implementation — while `Sem` says `
 (`define f begin print 5 end  assign x [f]  print x` prints 5 twice on the real machine).  Calls as
 STATEMENTS need no such condition.
 Not covered: routine DEFINITIONS inside the block (the loader's relocation); calls in the arguments
-of `printf`, in zone and matrix ranges, in the bounds of the index-variable forms and `with`
-clauses and in the names of the sources of `repeat in` (these positions are call-free in the
-fragment).
+of `printf` (values already queued for the `printf` would have to survive the call: the relation
+in a callee has no pending output).
 
 Changes of `Sem` made together with these extensions (the statements of the theorems did not change
 in form — `stk` is now a `Sim.Stk`, `C01_gen_sim_return` also says which evaluation stack is left —
@@ -113,9 +113,8 @@ What is missing for the full statement:
   statements satisfies `Sim.RoutinesAt` and has the main code, with its jumps shortened around the
   extracted routines, equal to the code of the script without the definitions (the third example
   below checks this for one script by evaluation);
-* calls in the remaining value positions (arguments of `printf` — where values already queued for
-  the `printf` would have to survive the call —, ranges, loop bounds, names of sources), and value
-  calls of routines that may run off their end (see `V` above);
+* calls in the arguments of `printf` (values already queued for the `printf` would have to survive
+  the call), and value calls of routines that may run off their end (see `V` above);
 Restrictions of the fragment that are forced by the MODEL (source semantics and machine disagree
 outside them; concrete scripts are at the end of this file):
 * `Sem` does not model the `result` register, the generated code uses it as scratch: a script
@@ -144,10 +143,11 @@ theorem Sim.stmts_zero : StmtsGoal V img K 0 := by
   simp only [execStmt, Prod.mk.injEq] at h
   rcases ho with rfl | rfl <;> simp at h
 
-theorem Sim.stmts_step (f : Nat) (ihRv : RvToGoal V img K f) (ihCall : CallGoal V img K f)
+theorem Sim.stmts_step (f : Nat) (ihRvs : RvToGoals V img K f) (ihCall : CallGoal V img K f)
     (ihB : BlockGoal V img K f) (ihOs : OperandsGoal V img K f)
     (ihL : LoopGoal V img K f) : StmtsGoal V img K (f + 1) := by
   intro st hst
+  have ihRv := ihRvs f (Nat.le_refl f)
   cases st with
   | setReg r v => exact stmt_setReg f ihRv r v hst.1 hst.2
   | units m => exact stmt_units f m
@@ -171,7 +171,7 @@ theorem Sim.stmts_step (f : Nat) (ihRv : RvToGoal V img K f) (ihCall : CallGoal 
   | print v => exact stmt_print f ihRv v hst
   | println v => exact stmt_println f ihRv v hst
   | printf fmt as => exact stmt_printf f fmt as hst.1 hst.2.1 hst.2.2
-  | stage rows cols cf => exact stmt_stage f rows cols cf hst.1 hst.2
+  | stage rows cols cf => exact stmt_stage f ihRvs rows cols cf hst.1 hst.2
 
 /-- all the simulation statements at one fuel level, in every context with the routine table
 `R`: for the outcomes `normal` and `break` anywhere, for `return` inside a routine -/
@@ -215,17 +215,18 @@ theorem Sim.allGoals_le (img : Image) (R : List (String × Sem.Routine)) (hR : R
     · exact ihle g hlt
     · obtain rfl : g = f + 1 := by omega
       have ih := ihle f (Nat.le_refl f)
-      exact ⟨fun r => stmts_step f (ih.rvTo r) (ih.call r) (ih.block r) (ih.operands r) (ih.loop r),
+      have rvs : ∀ r, RvToGoals V img ⟨r, R⟩ f := fun r g hg => (ihle g hg).rvTo r
+      exact ⟨fun r => stmts_step f (rvs r) (ih.call r) (ih.block r) (ih.operands r) (ih.loop r),
         fun r => block_step f (ih.stmts r) (ih.block r),
-        fun r => operand_step f (ih.block r), fun r => operands_step f (ih.operand r) (ih.operands r),
-        fun r => loop_step f (ih.rvTo r) (ih.whileI r) (ih.countI r) (fun g hg => (ihle g (by omega)).countI r),
+        fun r => operand_step f (rvs r) (ih.block r), fun r => operands_step f (ih.operand r) (ih.operands r),
+        fun r => loop_step f (rvs r) (ih.whileI r) (ih.countI r) (fun g hg => (ihle g (by omega)).countI r),
         fun r => while_step f (ih.rvTo r) (ih.block r) (ih.whileI r),
         fun r => count_step f (ih.block r) (ih.countI r),
         fun r st => stmts_ret_step f (ih.rvTo _) (ih.blockR r st) (ih.operandsR r st) (ih.loopR r st) r st.1 st.2 rfl,
         fun r st => block_ret_step f (ih.stmts _) (ih.stmtsR r st) (ih.blockR r st),
         fun r st => operand_ret_step f (ih.blockR r st),
         fun r st => operands_ret_step f (ih.operand _) (ih.operandR r st) (ih.operandsR r st),
-        fun r st => loop_ret_step f (ih.rvTo _) (ih.whileR r st) (ih.countR r st)
+        fun r st => loop_ret_step f (rvs _) (ih.whileR r st) (ih.countR r st)
           (fun g hg => (ihle g (by omega)).countR r st),
         fun r st => while_ret_step f (ih.rvTo _) (ih.block _) (ih.blockR r st) (ih.whileR r st),
         fun r st => count_ret_step f (ih.block _) (ih.blockR r st) (ih.countR r st),
